@@ -81,6 +81,12 @@ def main():
                     plan.append(dict(fam=fam, impl=impl, is_set=is_set, leaf=lf, internal=it, nkeys=nk, dump=fn,
                                      indices=sorted(idx[:budget]), per_state=3 if quick else 6, targeted=True,
                                      seed=ck.seed * 100000 + len(plan), pure=(impl == 'py')))
+    # the same scenarios on a user subclass of the tree class (only the data manager sees the difference: class by reference)
+    extra = []
+    for j in plan:
+        if j['impl'] == 'c' and j['fam'] in ('II', 'OO') and len(extra) < (6 if quick else 40):
+            extra.append(dict(j, subclass=True, seed=j['seed'] + 77))
+    plan += extra
     results = jobs.run_jobs('harness.workers.txn_worker', plan, pure=True)
     groups = {}
     outcomes = {}
